@@ -14,5 +14,6 @@ func controlsC06() []Control {
 		{Name: "hand engine always told entry 0 is the dealer twice", Expect: "R4", Mutate: replaceIn("(*tableEngine).startGame", "if !funk.Contains(playerSettings[0].Positions, Position_Dealer) {", "if true {", 0)},
 		{Name: "rotate helper drops the head", Expect: "R2", Mutate: replaceIn("rotateStringArray", "return append(source[startIndex:], source[:startIndex]...)", "return source[startIndex:]", 0)},
 		{Name: "next-BB order computed before results are credited", Expect: "R5", Mutate: replaceIn("(*tableEngine).settleGame", "\t// 計算攤牌勝率用\n", "\tte.table.State.NextBBOrderPlayerIDs = te.refreshNextBBOrderPlayerIDs(te.sm.CurrentBBSeatID(), te.table.Meta.TableMaxSeatCount, te.table.State.PlayerStates, te.table.State.SeatMap)\n", 0)},
+		{Name: "dead-seat label skip only for occupied seats", Expect: "R7", Mutate: replaceIn("(*tableEngine).updatePlayerPositions", "if seatPlayer, exist := te.sm.Seats()[seatID]; exist {\n\t\t\tif seatPlayer != nil && seatPlayer.Active() {", "if seatPlayer, exist := te.sm.Seats()[seatID]; exist && seatPlayer != nil {\n\t\t\tif seatPlayer.Active() {", 0)},
 	}
 }
